@@ -17,7 +17,7 @@
    see notes/C10.md for what is still open. *)
 From Coq Require Import List ZArith.
 From RtoscV Require Import Pretty.Tok Pretty.FloatFmt Pretty.PrintModel Pretty.ScanModel
-  Pretty.PrettyProofs Pretty.RangeProofs Pretty.RunProofs Pretty.ListProofs Pretty.ArrayProofs Pretty.PrettyRegress.
+  Pretty.PrettyProofs Pretty.FloatProofs Pretty.RangeProofs Pretty.RunProofs Pretty.ListProofs Pretty.ArrayProofs Pretty.PrettyRegress.
 Import ListNotations.
 Local Open Scope Z_scope.
 
@@ -83,13 +83,15 @@ Proof. exact elements_agree. Qed.
    any line length, precision, column): for lists of int32/int64/char values,
    true/false/nil/inf, strings and quoted symbols (goodc: the FULL int32/int64
    range since the range_step_fits fix; strings/symbols/chars without '.' -
-   finding D28 -; floats, plain symbols,
-   blobs, MIDI, colours, arrays and time tags are outside), the returned count
+   finding D28 -; MIDI, colours; with the lossless option every finite float
+   and double except -0.0 - finding signed-zero-run -, printed as
+   "<decimal> (<hexadecimal>)"; plain symbols, blobs, arrays among other values
+   and time tags are outside), the returned count
    is the text length, the checker accepts with the number of slots the scanner
    then writes, the scanner consumes the whole text, and the slots expand to
    the original values. *)
 Theorem C10_roundtrip_any_partial : forall (dec2f dec2d : list Z -> Z) o vs text w,
-  Forall goodc vs -> Z.of_nat (length vs) < 2 ^ 31 ->
+  Forall (goodc o) vs -> Z.of_nat (length vs) < 2 ^ 31 ->
   print_arg_vals o vs 0 = Some (text, w) ->
   exists slots,
     w = len text /\
@@ -101,7 +103,7 @@ Proof. exact roundtrip_any. Qed.
 (* the same for whole messages (rtosc_print_message / count_of_msg /
    rtosc_scan_message), compression on or off *)
 Theorem C10_message_any_partial : forall (dec2f dec2d : list Z -> Z) o addr vs text w,
-  good_addr addr -> Forall goodc vs -> Z.of_nat (length vs) < 2 ^ 31 ->
+  good_addr addr -> Forall (goodc o) vs -> Z.of_nat (length vs) < 2 ^ 31 ->
   print_message o addr vs 0 = Some (text, w) ->
   exists slots,
     w = len text /\
@@ -111,8 +113,8 @@ Theorem C10_message_any_partial : forall (dec2f dec2d : list Z -> Z) o addr vs t
 Proof. exact message_roundtrip_any. Qed.
 
 (* non-vacuity: a list with a constant run, an elided and an explicit run *)
-Theorem C10_roundtrip_any_nonvacuous :
-  Forall goodc ([VT; VT; VT; VT; VT; VI 7] ++ map VI [1; 2; 3; 4; 5; 6] ++ map VH [10; 20; 30; 40; 50]) /\
+Theorem C10_roundtrip_any_nonvacuous : forall o,
+  Forall (goodc o) ([VT; VT; VT; VT; VT; VI 7] ++ map VI [1; 2; 3; 4; 5; 6] ++ map VH [10; 20; 30; 40; 50]) /\
   exists text w, print_arg_vals {| lossless := true; prec := 2; linelength := 20; compress := true |}
     ([VT; VT; VT; VT; VT; VI 7] ++ map VI [1; 2; 3; 4; 5; 6] ++ map VH [10; 20; 30; 40; 50]) 0 = Some (text, w).
 Proof. exact roundtrip_any_example. Qed.
@@ -128,7 +130,7 @@ Proof. exact roundtrip_any_example. Qed.
    Outside: arrays among other values of a list (the checker looks for the left
    neighbour of a later range in the text of the array), nested arrays. *)
 Theorem C10_array_roundtrip_partial : forall (dec2f dec2d : list Z -> Z) o ty elems text w,
-  Forall goodc elems -> homog elems -> Z.of_nat (length elems) + 1 < 2 ^ 31 ->
+  Forall (goodc o) elems -> homog elems -> Z.of_nat (length elems) + 1 < 2 ^ 31 ->
   print_arg_vals o (VArr ty (Z.of_nat (length elems)) :: elems) 0 = Some (text, w) ->
   exists ty' slots,
     w = len text /\
@@ -153,8 +155,8 @@ Theorem C10_array_reads_partial : forall (dec2f dec2d : list Z -> Z) its T,
 Proof. exact array_reads. Qed.
 
 (* non-vacuity: [1 2 3 4 5 6 9 8 8 8 8 8 8] prints as "[1 ... 6 9 6x8]" *)
-Theorem C10_array_nonvacuous :
-  Forall goodc example_elems /\ homog example_elems /\
+Theorem C10_array_nonvacuous : forall o,
+  Forall (goodc o) example_elems /\ homog example_elems /\
   exists w, print_arg_vals {| lossless := true; prec := 2; linelength := 20; compress := true |}
     (VArr 105 (Z.of_nat (length example_elems)) :: example_elems) 0
   = Some ([91; 49; 32; 46; 46; 46; 32; 54; 32; 57; 32; 54; 120; 56; 93], w).
@@ -175,6 +177,32 @@ Proof.
   exact (fun a b its T H => conj (proj1 (iseq_reads a b its T H))
                                  (conj (proj2 (iseq_reads a b its T H)) (expand_items a b its None T H))).
 Qed.
+
+(* floats and doubles, lossless form: the hexadecimal text printf("%a") writes
+   for the (promoted) value is read back to the same bit pattern, for EVERY
+   finite float and double (subnormals, both zeroes); FloatFmt.fmt_a and
+   hex_to_f32/f64 are concrete functions on bit patterns, no oracle *)
+Theorem C10_hexfloat_roundtrip :
+  (forall b, 0 <= b < 2 ^ 32 -> f32_finite b = true -> hex_to_f32 (fmt_a (f32_to_f64 b)) = b) /\
+  (forall b, 0 <= b < 2 ^ 64 -> f64_finite b = true -> hex_to_f64 (fmt_a b) = b).
+Proof. exact (conj f32_roundtrip f64_roundtrip). Qed.
+
+(* ... and both recognisers read the printed token "<%#.<p>f> (<%a>)" resp.
+   "<%#.<p>f>d (<%a>)" back to those bits, for every precision p, whatever the
+   oracles say about the decimal part (its value is overwritten) *)
+Theorem C10_float_tokens : forall (dec2f dec2d : list Z -> Z) p,
+  (forall b, 0 <= b < 2 ^ 32 -> f32_finite b = true ->
+     tok_core dec2f dec2d (VFl b) (fmt_f p (f32_to_f64 b) ++ [32; 40] ++ fmt_a (f32_to_f64 b) ++ [41])) /\
+  (forall b, 0 <= b < 2 ^ 64 -> f64_finite b = true ->
+     tok_core dec2f dec2d (VD b) (fmt_f p b ++ 100 :: [32; 40] ++ fmt_a b ++ [41])).
+Proof. exact (fun a b p => conj (tok_float a b p) (tok_double a b p)). Qed.
+
+(* non-vacuity: 1.5f six times (a compressed run), 0.1 as a double, the smallest
+   subnormal float, an int *)
+Theorem C10_float_nonvacuous :
+  Forall (goodc ex_fl_opts) ex_fl_list /\
+  exists text w, print_arg_vals ex_fl_opts ex_fl_list 0 = Some (text, w).
+Proof. exact float_list_example. Qed.
 
 (* decimal integers: no open hypothesis about printf/sscanf *)
 Theorem C10_decimal_roundtrip : forall v rest,
